@@ -30,6 +30,12 @@
   * `mode_glue_is_source`          the triple pattern `(exp s, −s', −s'')` and the node preparation (thin / flip) of the model are the ones
                                    the translator extracts from `mode_gamma.py` on this run (Generated/ModeGammaSpec.lean).
 
+  * `mode_glue_src_*`              EVERY function of `mode_gamma.py` is re-translated on each run as statement lists / expression trees
+                                   (`tools/gens/modegamma_src.py` → `Generated/ModeGammaGlue.lean`; locals α-renamed) and interpreted by
+                                   `CijModel/ModeGammaGlue.lean` (Python values, numpy/scipy calls by NAME, the libraries as parameters): the model's
+                                   `interpolateMode` for every method and `interpolateModes` for the double loop ARE that interpretation — all
+                                   inputs, any scalar with ANY `ExpLog` pair (no law, no base), any kernels; the inventory is complete.
+
   PARTIAL (see the comments at the theorems): FITPACK (`spline`) internals are a parameter (contract measured by the harness).
   Rank-deficient least squares (fewer than order+1 distinct volumes; numpy: minimum-norm solution) is outside the model.
 -/
@@ -38,9 +44,11 @@ import CijProofs.Lemmas.ModeGammaSource
 import CijProofs.Lemmas.SolveTotal
 import CijProofs.Lemmas.PPoly
 import CijProofs.Lemmas.PPolySource
+import CijProofs.Lemmas.ModeGammaGlueSource
 import Mathlib.Analysis.SpecialFunctions.Log.Deriv
 import Mathlib.Analysis.SpecialFunctions.Pow.Real
 import Mathlib.Analysis.Calculus.Deriv.Polynomial
+import CijProofs.Lemmas.PlotModesSource
 
 namespace Cij.C11
 
@@ -818,6 +826,195 @@ example :
       plotModes (calculatorWiring f g d) 4 2 0 = .ok [[0, 0]] ∧ plotModes (calculatorWiring f g d) 4 3 0 = .error .unboundLocal := by
   decide +kernel
 
+
+/-! #### the whole module `mode_gamma.py` is the source's (`tools/gens/modegamma_src.py`) -/
+
+section GlueSrc
+open Cij.ModeGammaGlue
+open Generated.ModeGammaGlue (fns loop)
+variable {α : Type} [Add α] [Mul α] [Neg α] [Zero α] [One α] [NatCast α] [ExpLog α]
+
+/-- **inventory.**  `mode_gamma.py` defines exactly seven functions, each once, and every one of them is translated as data (six
+statement lists `fns`, the loop structure `loop`) — none is only pinned as text; the module has no other statement than its imports
+(no module-level state); `numpy` / `scipy` are the packages; NOTHING in any expression of the seven functions is outside the translator's
+grammar (no `.other` node, no unknown dotted name, no unknown keyword, no unknown index pattern); the translator's name tables invert
+`Lib.pyName` / `Kw.pyName`; and the library functions the module names are exactly the eighteen listed — the only elementwise
+transcendental ones being `numpy.log` and `numpy.exp`. -/
+theorem mode_glue_src_inventory :
+    (Generated.ModeGammaGlue.definedFunctions = Generated.ModeGammaGlue.handled.map (·.1) ∧
+      Generated.ModeGammaGlue.definedFunctions.Nodup ∧
+      (∀ h ∈ Generated.ModeGammaGlue.handled, h.2 = .translated "fns" ∨ h.2 = .translated "loop") ∧
+      Generated.ModeGammaGlue.definedFunctions = fns.map (·.name) ++ [loop.name] ∧
+      Generated.ModeGammaGlue.moduleAssigns = [] ∧ Generated.ModeGammaGlue.moduleOtherStatements = [] ∧
+      (∀ e ∈ Generated.ModeGammaGlue.imports, (e.1 = "numpy" → e.2 = "numpy") ∧ (e.1 = "scipy" → e.2.startsWith "scipy") ∧
+        e.1 ∉ Generated.ModeGammaGlue.definedFunctions)) ∧
+    outsideGrammar = [] ∧
+    ((∀ e ∈ Generated.ModeGammaGlue.libTable, e.2.pyName = e.1) ∧ (∀ e ∈ Generated.ModeGammaGlue.kwTable, e.2.pyName = e.1)) ∧
+    usedLibs.eraseDups =
+      [.spUnivariateSpline, .npFlip, .npLog, .npExp, .pyInt, .npCeil, .spLagrange, .npPolyder, .spKrogh, .spPchip, .spAkima,
+        .spHermite, .npVander, .npLstsq, .npPoly1d, .npPolyval, .npArray, .pyRange] :=
+  ⟨inventory_complete, nothing_outside, tables_ok, used_libs⟩
+
+/-- **`interpolate_mode_spline` is the source's.**  For every order, node arrays and grid — in the ORDER GIVEN, nothing is sorted —, every
+spline library (`env.spline k` = `UnivariateSpline(x, y, k=k)` with no `w`, `s`, `ext`): the translated statements
+(`UnivariateSpline(flip(log V), flip(log ω), k=order)`; `interp(log v)`, `interp(log v, nu=1)`, `interp(log v, nu=2)`; `exp`, `−`, `−`)
+evaluate to the model's `interpolateMode .spline`.  The NAME `numpy.log` is interpreted as `ExpLog.log` in all three positions (nodes,
+values, grid) and `numpy.exp` as `ExpLog.exp`, for an arbitrary pair of functions: nothing about the base of the logarithm is assumed, a
+`numpy.log10` anywhere has no interpretation. -/
+theorem mode_glue_src_spline (env : Env α) (order : ℕ) (vols freqs va : List α) :
+    runFn fns env 2 "interpolate_mode_spline" [.arr vols, .arr freqs, .arr va] [("order", .nat order)]
+      = (Out.ofExcept (interpolateMode .spline order (env.spline order) vols freqs va)).map colsVal :=
+  spline_is_source env order vols freqs va
+
+/-- **`interpolate_mode_lagrange` / `interpolate_mode_krogh` are the source's** (node arrays of equal length, at least one volume —
+`interpolate_modes` builds both from `qha_input.volumes`): `interval = int(ceil(shape[0] / order))` (order 0: `ZeroDivisionError` in both),
+`[::interval]` on BOTH arrays, both flipped and logged, `scipy.interpolate.lagrange` with `numpy.polyder(poly, m=1|2)` resp.
+`KroghInterpolator` with `.derivative(x, der=1|2)`, `exp` / `−` / `−`. -/
+theorem mode_glue_src_lagrange_krogh (env : Env α) (order : ℕ) (vols freqs va : List α) (hl : vols.length = freqs.length)
+    (hne : vols ≠ []) :
+    runFn fns env 2 "interpolate_mode_lagrange" [.arr vols, .arr freqs, .arr va] [("order", .nat order)]
+        = (Out.ofExcept (interpolateMode .lagrange order env.lagrange vols freqs va)).map colsVal ∧
+      runFn fns env 2 "interpolate_mode_krogh" [.arr vols, .arr freqs, .arr va] [("order", .nat order)]
+        = (Out.ofExcept (interpolateMode .krogh order env.krogh vols freqs va)).map colsVal :=
+  ⟨lagrange_is_source env order vols freqs va hl hne, krogh_is_source env order vols freqs va hl hne⟩
+
+/-- **`interpolate_mode_ppoly` is the source's** for its three method strings: the class chosen by the if/elif chain, the 2-argument
+constructor call on the thinned, flipped, logged nodes, the three evaluations with `extrapolate=True` (and `nu=1|2`); `hermite`:
+`CubicHermiteSpline(x, y)` raises `TypeError` after the thinning, whatever the kernel. -/
+theorem mode_glue_src_ppoly (env : Env α) (I : Interpolant α) (order : ℕ) (vols freqs va : List α) (hl : vols.length = freqs.length)
+    (hne : vols ≠ []) :
+    runFn fns env 2 "interpolate_mode_ppoly" [.arr vols, .arr freqs, .arr va] [("method", .str "pchip"), ("order", .nat order)]
+        = (Out.ofExcept (interpolateMode .pchip order env.pchip vols freqs va)).map colsVal ∧
+      runFn fns env 2 "interpolate_mode_ppoly" [.arr vols, .arr freqs, .arr va] [("method", .str "akima"), ("order", .nat order)]
+        = (Out.ofExcept (interpolateMode .akima order env.akima vols freqs va)).map colsVal ∧
+      runFn fns env 2 "interpolate_mode_ppoly" [.arr vols, .arr freqs, .arr va] [("method", .str "hermite"), ("order", .nat order)]
+        = (Out.ofExcept (interpolateMode .hermite order I vols freqs va)).map colsVal :=
+  ⟨pchip_is_source env order vols freqs va hl hne, akima_is_source env order vols freqs va hl hne,
+    hermite_is_source env I order vols freqs va hl hne⟩
+
+/-- **`lstsq_polyfit` is the source's.**  `order += 1`; the matrix handed to `numpy.linalg.lstsq` is `numpy.vander(xs, order + 1)` — the
+model's `vander`: `order + 1` columns, DECREASING powers `[x^order, …, x, 1]` — with the 1-d right-hand side `ys` of the ONE call;
+the solution is returned as it is, together with `polyval` of it (highest power first) at `new_xs`.  For every solver `env.lstsq`. -/
+theorem mode_glue_src_lstsq_polyfit (env : Env α) (fuel order : ℕ) (xs ys new : List α) :
+    runFn fns env (fuel + 1) "lstsq_polyfit" [.arr xs, .arr ys, .arr new] [("order", .nat order)]
+      = (Out.ofExcept (env.lstsq (vander xs (order + 1)) ys)).map fun a => .tuple2 (.arr a) (.arr (new.map (polyval a))) :=
+  lstsq_polyfit_is_source env fuel order xs ys new
+
+/-- **`interpolate_mode_lsq_poly` is the source's**: all volumes in file order (no thinning, no flip), `log` of nodes, values and grid,
+one `lstsq_polyfit` call with `order=order`, `exp` of the fitted values, `−polyval(polyder(p, 1))`, `−polyval(polyder(p, 2))` — the
+model's `interpolateMode .lsqPoly` run with the least-squares kernel over the SAME solver (`lsqKernel`: `vander(x, order + 1)`,
+1-d right-hand side).  No cap on the number of coefficients, no centring. -/
+theorem mode_glue_src_lsq_poly (env : Env α) (order : ℕ) (vols freqs va : List α) :
+    runFn fns env 2 "interpolate_mode_lsq_poly" [.arr vols, .arr freqs, .arr va] [("order", .nat order)]
+      = (Out.ofExcept (interpolateMode .lsqPoly order (lsqKernel env.lstsq order) vols freqs va)).map colsVal :=
+  lsq_poly_is_source env order vols freqs va
+
+/-- … and with a solver that returns on Vandermonde systems what the model's exact solver returns (the contract of
+`numpy.linalg.lstsq`; `lstsqPolyfit` IS the least-squares polynomial by `lsq_minimises` / `lsq_total`) that kernel is the model's
+`lsqInterpolant`, and the libraries of `stdEnv` give every method exactly the kernel `kernelFull` names -/
+theorem mode_glue_src_kernels {β : Type} [Add β] [Sub β] [Mul β] [Div β] [Neg β] [Zero β] [One β] [NatCast β] [BEq β] [LT β]
+    [DecidableLT β] [LE β] [DecidableLE β] [ExpLog β] (lib : Interpolant β) (S : List (List β) → List β → Except Err (List β))
+    (hS : SolvesVander S) (m : Method) (order : ℕ) :
+    lsqKernel S order = lsqInterpolant order ∧ (stdEnv lib S).kernelFor m order = Cij.PPoly.kernelFull m order lib ∧
+      (LenOK lib → LenOK ((stdEnv lib S).kernelFor m order)) :=
+  ⟨lsqKernel_model S hS order, stdEnv_kernelFor lib S hS m order, fun h => stdEnv_lenOK lib h S m order⟩
+
+/-- **`interpolate_modes` is the source's.**  For every method string `s` (the seven of the dispatch table, or any other: no branch,
+zero arrays), every order, every input with at least one volume whose volumes carry the `nq × np` frequencies the header announces,
+every library returning one sample per evaluation point: the interpretation of the translated function — `nq`, `np` from the header,
+`ntv = v_array.shape[0]`; three `numpy.zeros((ntv, nq, np))`; `mode_volumes` from `qha_input.volumes`; `for j in range(nq): for k in
+range(np):` with the single skip `j == 0 and k in range(3)`; `mode_freqs` = `[volume.q_points[j].modes[k] for volume in …]`; the
+method → function dispatch with `order=order` (and `method=method` for the ppoly branch); targets `[:, j, k]` of the three arrays in
+the order of the returned triple; `return` in that order — IS the model's `interpolateModes` (same arrays, same first exception in
+loop order). -/
+theorem mode_glue_src_loop (env : Env α) (s : String) (order nv nq np : ℕ) (volumes : List (α × List (List α))) (va : List α)
+    (hne : volumes ≠ []) (hshape : Shaped volumes nq np) (hI : LenOK (env.kernelFor (Method.ofString s) order)) :
+    loop.run fns env [.qha nv nq np volumes, .arr va, .str s, .nat order]
+      = (Out.ofExcept (interpolateModes (Method.ofString s) order (env.kernelFor (Method.ofString s) order)
+            (volumes.map (·.1)) va nq np (volumes.map (·.2)))).map fun r => [r.1, r.2.1, r.2.2] :=
+  loop_is_source env s order nv nq np volumes va hne hshape hI
+
+/-- **one independent fit per mode, indexed (v, q, m).**  Whenever the translated `interpolate_modes` returns `[F, G, D]`: at every grid
+index `t`, q-point `j`, mode `k`
+* Γ-acoustic (`j = 0`, `k < 3`): the three entries are exactly `0`;
+* otherwise (a method of the table): they are the `t`-th sample of the fit of `interpolateMode` on THAT mode's own series
+  `[volume.q_points[j].modes[k] for volume in volumes]` and the node volumes — nothing of any other mode enters, nothing is reused
+  between modes (the kernel is called afresh on these arguments). -/
+theorem mode_glue_src_one_fit_per_mode (env : Env α) (s : String) (order nv nq np : ℕ) (volumes : List (α × List (List α)))
+    (va : List α) (hne : volumes ≠ []) (hshape : Shaped volumes nq np) (hI : LenOK (env.kernelFor (Method.ofString s) order))
+    (F G D : List (List (List α)))
+    (h : loop.run fns env [.qha nv nq np volumes, .arr va, .str s, .nat order] = .ok [F, G, D])
+    (t j k : ℕ) (ht : t < va.length) (hj : j < nq) (hk : k < np) :
+    (j = 0 ∧ k < 3 → entry F t j k = some 0 ∧ entry G t j k = some 0 ∧ entry D t j k = some 0) ∧
+      (¬(j = 0 ∧ k < 3) → Method.ofString s ≠ .unknown →
+        ∃ col, interpolateMode (Method.ofString s) order (env.kernelFor (Method.ofString s) order) (volumes.map (·.1))
+            (volumes.map fun vl => (vl.2.getD j []).getD k 0) va = .ok col ∧
+          entry F t j k = some (col.getD t (0, 0, 0)).1 ∧ entry G t j k = some (col.getD t (0, 0, 0)).2.1 ∧
+          entry D t j k = some (col.getD t (0, 0, 0)).2.2) := by
+  rw [loop_is_source env s order nv nq np volumes va hne hshape hI] at h
+  have hm : interpolateModes (Method.ofString s) order (env.kernelFor (Method.ofString s) order) (volumes.map (·.1)) va nq np
+      (volumes.map (·.2)) = .ok (F, G, D) := by
+    cases hx : interpolateModes (Method.ofString s) order (env.kernelFor (Method.ofString s) order) (volumes.map (·.1)) va nq np
+        (volumes.map (·.2)) with
+    | error e => rw [hx] at h; simp [Out.ofExcept, Out.map] at h
+    | ok r =>
+      rw [hx] at h
+      obtain ⟨a, b, c⟩ := r
+      simp only [Out.ofExcept, Out.map, bind_ok, Out.ok.injEq, List.cons.injEq, and_true] at h
+      obtain ⟨rfl, rfl, rfl⟩ := h
+      rfl
+  obtain ⟨col, hcol, e1, e2, e3⟩ := modes_cell _ order _ _ va nq np _ F G D hm t j k ht hj hk
+  have hser : series (volumes.map (·.2)) j k = volumes.map fun vl => (vl.2.getD j []).getD k 0 := by
+    simp [series, List.map_map, Function.comp_def]
+  constructor
+  · rintro ⟨rfl, hk3⟩
+    have hcond : ((0 : ℕ) == 0 && decide (k < 3)) = true := by simp [hk3]
+    have : col = va.map fun _ => ((0 : α), (0 : α), (0 : α)) := by
+      rw [cell, if_pos hcond] at hcol
+      exact (Except.ok.inj hcol).symm
+    subst this
+    simp only [List.getD_eq_getElem?_getD, List.getElem?_map, List.getElem?_eq_getElem ht, Option.map_some,
+      Option.getD_some] at e1 e2 e3
+    exact ⟨e1, e2, e3⟩
+  · intro hs hmu
+    refine ⟨col, ?_, e1, e2, e3⟩
+    have hcond : (j == 0 && decide (k < 3)) = false := by
+      simpa using hs
+    have hmu' : (Method.ofString s == Method.unknown) = false := by simpa using hmu
+    rw [cell, hcond, hmu', hser] at hcol
+    simpa using hcol
+
+/-- non-vacuity of `mode_glue_src_loop` / `…_one_fit_per_mode`: a well-shaped input (three volumes, one q-point, four modes), and the
+translated loop RUN on it (scalar ℚ with exp = log = id, `lsq_poly` of order 1 with the exact solver on the abscissae read back from
+the Vandermonde matrix): the same arrays as the model's run in the example after `hermite_raises` — the Γ-acoustic entries 7, 8, 9 of
+the input are ignored, the fourth mode is fitted on its own series 1, 3, 5 at volumes 1, 2, 3 -/
+example :
+    letI : ExpLog ℚ := ⟨id, id⟩
+    loop.run (α := ℚ) fns (stdEnv (β := ℚ) (fun _ _ _ => Except.error Err.valueError)
+        (fun A b => match lstsqPolyfit (A.map fun r => r.getD (r.length - 2) 0) b ((A.headD []).length - 1) with
+          | some a => Except.ok a | none => Except.error Err.linAlg))
+      [.qha 3 1 4 [((1 : ℚ), [[7, 7, 7, 1]]), (2, [[8, 8, 8, 3]]), (3, [[9, 9, 9, 5]])], .arr [4], .str "lsq_poly", .nat 1]
+      = Out.ok [[[[0, 0, 0, 7]]], [[[0, 0, 0, -2]]], [[[0, 0, 0, 0]]]] := by decide +kernel
+
+example : Shaped [((1 : ℚ), [[7, 7, 7, 1]]), (2, [[8, 8, 8, 3]]), (3, [[9, 9, 9, 5]])] 1 4 := by
+  intro vl hvl j hj k hk
+  have hj0 : j = 0 := by omega
+  subst hj0
+  simp only [List.mem_cons, List.not_mem_nil, or_false] at hvl
+  have hk4 : k = 0 ∨ k = 1 ∨ k = 2 ∨ k = 3 := by omega
+  rcases hvl with rfl | rfl | rfl <;> rcases hk4 with rfl | rfl | rfl | rfl <;> simp
+
+/-- a decimal logarithm or a sorted grid has NO interpretation: an expression the semantics does not know is `stuck`, never a default -/
+example :
+    letI : ExpLog ℚ := ⟨id, id⟩
+    (Ex.call (.other "numpy.log10") [.var "v"] []).eval (α := ℚ) (stdEnv (β := ℚ) (fun _ _ _ => Except.error Err.valueError)
+        fun _ _ => Except.error Err.linAlg) (fun _ _ _ => Out.stuck) [("v", .arr [1])] = Out.stuck ∧
+      (Ex.call (.other "numpy.sort") [.var "v"] []).eval (α := ℚ) (stdEnv (β := ℚ) (fun _ _ _ => Except.error Err.valueError)
+        fun _ _ => Except.error Err.linAlg) (fun _ _ _ => Out.stuck) [("v", .arr [1])] = Out.stuck :=
+  ⟨rfl, rfl⟩
+
+end GlueSrc
+
 /-! #### the glue is the source's -/
 
 /-- **model-is-source** for the glue of `mode_gamma.py`.  For every method `m` that dispatches to a source function `f`
@@ -877,5 +1074,24 @@ theorem mode_return_pattern_all : Generated.modeReturnPattern.length = 5 ∧
 example : Method.pchip.pyFunction = some "interpolate_mode_ppoly" ∧
     Generated.modeNodesSpec.lookup "interpolate_mode_ppoly" = some (true, true) ∧
     Generated.modeNodesSpec.lookup "interpolate_mode_lsq_poly" = some (false, false) := by decide
+
+/-! #### the diagnostic plot, as written in cij/plot/modes.py and cij/cli/modes.py now -/
+
+/-- **plot_select_is_source.**  For EVERY integer n the model's selection (`plot_select`: ω, γ, V∂γ/∂V for n = 0, 1, 2, nothing otherwise) is
+the interpretation of the selection chain translated from `ModePlotter.plot_modes` on this run, applied to `mode_gamma = [V∂γ/∂V, γ, γ²]` as
+`Calculator._interpolate_modes` builds it (translated from calculator.py on this run). -/
+theorem plot_select_is_source (n : Int) :
+    plotSelect n = Cij.PlotModesSource.selectBy Generated.PlotModes.selection Generated.CalcGlue.interpolateModes.gamma
+      Generated.CalcGlue.interpolateModes.freqAttr Generated.CalcGlue.interpolateModes.gammaAttr n :=
+  Cij.PlotModesSource.plotSelect_is_source n
+
+/-- the command `cij modes` hands `-n` to `n` and `-q`/`--iq` to `iq` of `plot_modes`, in the declared order; Γ-acoustic skip and loops as
+translated -/
+theorem plot_command_wiring_is_source :
+    Generated.PlotModes.plotParams = ["ax", "n", "iq"] ∧
+    Generated.PlotModes.cliCallArgs.drop 1 = Generated.PlotModes.plotParams.drop 1 ∧
+    Generated.PlotModes.gammaSkip = 3 ∧ Generated.PlotModes.loopsCanonical = true :=
+  ⟨Cij.PlotModesSource.cli_modes_wiring_is_source.1, Cij.PlotModesSource.cli_modes_wiring_is_source.2.1,
+   Cij.PlotModesSource.plot_loops_are_source.1, Cij.PlotModesSource.plot_loops_are_source.2.1⟩
 
 end Cij.C11
